@@ -457,6 +457,14 @@ func (e *OwnEngine) doFunc(fn *ssa.Function) {
 			case *ssa.Go:
 				e.unknownCall(fn, in, "go")
 			case *ssa.MakeClosure:
+				// binding i is free variable i of the literal, wherever it is called
+				if cf, ok := in.Fn.(*ssa.Function); ok {
+					for i, b := range in.Bindings {
+						if i < len(cf.FreeVars) && pointerLike(cf.FreeVars[i].Type()) {
+							e.flow(e.P(cf.FreeVars[i]), e.valSet(b))
+						}
+					}
+				}
 				for _, b := range in.Bindings {
 					e.flow(e.P(in), e.valSet(b))
 				}
@@ -592,7 +600,7 @@ func (e *OwnEngine) doCall(fn *ssa.Function, call *ssa.Call) {
 		// dynamic: the handler slot of the function table
 		if sig, ok := cc.Value.Type().Underlying().(*types.Signature); ok && sig.Params().Len() == 1 {
 			n := 0
-			for _, te := range c.A.Table {
+			for _, te := range c.table() {
 				if te.Handler != nil && types.Identical(te.Handler.Signature, sig) {
 					e.bindCall(fn, call, te.Handler, cc.Args)
 					n++
@@ -615,11 +623,6 @@ func (e *OwnEngine) doCall(fn *ssa.Function, call *ssa.Call) {
 				}
 				if cand.Pkg != c.SLib && cand.Pkg != c.SCLI && !(cand.Parent() != nil) {
 					continue
-				}
-				for _, fv := range cand.FreeVars {
-					if pointerLike(fv.Type()) {
-						e.flow(e.P(fv), e.valSet(cc.Value))
-					}
 				}
 				e.bindCall(fn, call, cand, cc.Args)
 				n++
